@@ -48,7 +48,7 @@ func panicReason(p *ssa.Panic) (string, bool) {
 		case n == "encoding/asn1.Marshal" || n == "asn1.Marshal":
 			return allowedPanics["common.HashCommit"], true
 		case n == "revocation.hashUsingAlg" || n == "revocation.checkHashAlg" || strings.HasSuffix(n, "go-multihash.Sum"):
-			for _, arg := range c.Call.Args {
+			for _, arg := range callArgs(c) {
 				if _, isConst := arg.(*ssa.Const); isConst && isIntegerType(arg.Type()) && arg.Type().String() != "int" {
 					return allowedPanics["revocation.hash"], true
 				}
@@ -141,7 +141,7 @@ func init() {
 					if !isC || !isCallTo(c, "builtin:append") {
 						return
 					}
-					tail, okT := seqTail(c.Call.Args[1], 0, map[ssa.Value]bool{})
+					tail, okT := seqTail(callArgs(c)[1], 0, map[ssa.Value]bool{})
 					if !okT || len(tail) != 1 {
 						return
 					}
@@ -234,7 +234,7 @@ func stringConstsIn(fn *ssa.Function, fieldSuffix string) []string {
 			return
 		}
 		fa, ok := st.Addr.(*ssa.FieldAddr)
-		if !ok || fieldName(fa.X.Type(), fa.Field) != fieldSuffix {
+		if !ok || faName(fa) != fieldSuffix {
 			return
 		}
 		if c, ok := st.Val.(*ssa.Const); ok && c.Value != nil {
